@@ -22,7 +22,7 @@ import (
 type timingIn struct {
 	Mode string `json:"mode"`
 	Kind string `json:"kind"` // "block" | "hol" | "backlog"
-	Call string `json:"call"` // block: read | write | open | accept
+	Call string `json:"call"` // block: read | write | writenobuf (blocked waiting for a write buffer) | open | accept
 	Rel  string `json:"rel"`  // block: releasing event
 	W    int    `json:"w"`
 	B    int    `json:"b"`
@@ -67,16 +67,29 @@ func openPair(p *pair) (a, b *multiplexing.Stream, err error) {
 // blockAttempt runs one attempt of a blocked-call scenario.
 func blockAttempt(in timingIn) map[string]any {
 	att := map[string]any{"blocked": false, "returned": false, "lat": 0, "err": "", "setup": ""}
-	gated := false
-	p := newPair(nil, gated, 0, in.W, in.B, in.Bufs, 0)
+		p := newPair(nil, false, 0, in.W, in.B, in.Bufs, 0)
 	defer p.shutdown()
 	var a, b *multiplexing.Stream
-	if in.Call == "read" || in.Call == "write" {
+	if in.Call == "read" || in.Call == "write" || in.Call == "writenobuf" {
 		var err error
 		if a, b, err = openPair(p); err != nil {
 			att["setup"] = "open failed: " + errKind(err)
 			return att
 		}
+	}
+	if in.Call == "writenobuf" {
+		// Stall the carrier towards the peer: the next message stays in flight and the
+		// writer goroutine blocks in the carrier holding the only write buffer, so a
+		// second Write obtains the window token but no buffer.
+		d := p.l.dir[0]
+		d.mu.Lock()
+		d.gated, d.capacity = true, 1
+		d.mu.Unlock()
+		if _, err := a.Write(make([]byte, 4)); err != nil {
+			att["setup"] = "first write failed: " + errKind(err)
+			return att
+		}
+		time.Sleep(2 * time.Millisecond)
 	}
 	octx, ocancel := context.WithCancel(context.Background())
 	defer ocancel()
@@ -91,12 +104,16 @@ func blockAttempt(in timingIn) map[string]any {
 			a.SetReadDeadline(preDeadline)
 		}
 		go func() { _, err := a.Read(make([]byte, 16)); finish(err) }()
-	case "write":
+	case "write", "writenobuf":
 		if in.Rel == "deadline-preset" {
 			preDeadline = time.Now().Add(60 * time.Millisecond)
 			a.SetWriteDeadline(preDeadline)
 		}
-		go func() { _, err := a.Write(make([]byte, in.W+50)); finish(err) }()
+		n := in.W + 50
+		if in.Call == "writenobuf" {
+			n = 4
+		}
+		go func() { _, err := a.Write(make([]byte, n)); finish(err) }()
 	case "open":
 		go func() { _, err := p.mux[0].OpenStream(octx); finish(err) }()
 	case "accept":
@@ -183,6 +200,22 @@ func blockAttempt(in timingIn) map[string]any {
 		att["lat"] = lat
 	case <-time.After(waitAfterRel):
 		att["lat"] = int(waitAfterRel / time.Millisecond)
+		return att
+	}
+	if in.Call == "writenobuf" {
+		// The stream must stay usable: clear the deadline, let the carrier flow again
+		// and write once more (window and buffers are available now).
+		a.SetWriteDeadline(time.Time{})
+		p.l.dir[0].mu.Lock()
+		p.l.dir[0].capacity = 0
+		p.l.dir[0].mu.Unlock()
+		p.l.dir[0].setGated(false)
+		t0 := nowMs()
+		res := watchdog(waitAfterRel, func() callResult {
+			k, err := a.Write(make([]byte, 3))
+			return callResult{n: k, err: err}
+		})
+		att["follow"] = map[string]any{"returned": !res.hung, "lat": nowMs() - t0, "err": kindOf(res), "n": res.n}
 	}
 	return att
 }
@@ -350,6 +383,9 @@ func runTimingCase(cid string, in timingIn) *recorder {
 	ok := func(a map[string]any) bool {
 		switch in.Kind {
 		case "block":
+			if f, has := a["follow"].(map[string]any); has && (f["returned"] != true || f["err"] != "") {
+				return false
+			}
 			return a["blocked"] == true && a["returned"] == true && a["lat"].(int) <= limitMs
 		case "hol":
 			if a["stalled"] != true || a["finished"] != true {
@@ -420,6 +456,10 @@ func timingCases(c *vlib.Ctx) []timingIn {
 		for _, rel := range writeRels {
 			out = append(out, timingIn{Mode: "timing", Kind: "block", Call: "write", Rel: rel,
 				W: ws[rng.Intn(2)], B: 2, Bufs: bufs[rng.Intn(3)], Seed: rng.Int63()})
+		}
+		for _, rel := range []string{"deadline-preset", "deadline-set", "deadline-past"} {
+			out = append(out, timingIn{Mode: "timing", Kind: "block", Call: "writenobuf", Rel: rel,
+				W: 64, B: 2, Bufs: 1, Seed: rng.Int63()})
 		}
 		for _, call := range []string{"open", "accept"} {
 			for _, rel := range openRels {
